@@ -193,13 +193,13 @@ CLAIMED = {
     "C15": ("TLA+ spec Cli (Translate/Outcome/Render of a configuration, pipeline machine with EnteredWhileEvaluating, Deps over import "
             "graphs, native/import callback outcomes) model-checked by TLC; every enumerated configuration replayed on the jrsonnet "
             "executable, the library API (harness plumbing) and libjsonnet.so (ctypes, separate process); import graphs replayed on jrsonnet-deps",
-            "TLC enumerates 39k configurations (ext x tla flavour/payload, search path, input mode, 13 output modes, stack limit), 9k "
+            "TLC enumerates 52k configurations (ext x tla flavour/payload incl. values taken from the environment, search path, input mode, 13 output modes, stack limit), 9k "
             "import graphs and 53 callback cases and checks the pipeline invariant; all single-variable configurations plus a seeded sample of "
             "the product are run: the library must compute the value the model denotes (or fail where it denotes an error), the "
             "executable must exit/print/write what Render says with the library's text, libjsonnet must return the same JSON and error flag "
             "(also through native and import callbacks); jrsonnet-deps must list exactly Deps and every file an evaluation loads",
             "sample of the configuration product in the quick tier; libjsonnet text compared as JSON; right-most -J wins is assumed; "
-            "JSONNET_PATH and env-var variables are left to C07 / not modelled",
+            "JSONNET_PATH is left to C07",
             "DESIGN.md section C15"),
     "C14": ("TLA+ spec Formats (68 hostile string atoms with their classes, 7 value shapes, Domain(format, value) in {in, out, open}) "
             "model-checked by TLC; every enumerated value written by the 24 writers (std.manifest* with all option combinations and the "
